@@ -4,8 +4,12 @@ from concurrent.futures import ThreadPoolExecutor
 from vf import SPEC
 from vf.tlc import JAR, DEPS
 
+TLAPS_LIB = '/opt/veriftools/tlapm/lib/tlapm/stdlib'
+
+
 def one(f):
-    p = subprocess.run(['java', f'-DTLA-Library={SPEC}', '-cp', f'{JAR}:{DEPS}', 'tla2sany.SANY', os.path.join(SPEC, f)],
+    lib = SPEC + (os.pathsep + TLAPS_LIB if os.path.isdir(TLAPS_LIB) else '')        # proof modules EXTEND TLAPS
+    p = subprocess.run(['java', f'-DTLA-Library={lib}', '-cp', f'{JAR}:{DEPS}', 'tla2sany.SANY', os.path.join(SPEC, f)],
                        cwd=SPEC, stdout=subprocess.PIPE, stderr=subprocess.STDOUT, text=True)
     bad = p.returncode != 0 or 'Semantic errors' in p.stdout or 'Parse Error' in p.stdout or 'Could not' in p.stdout
     return f, bad, p.stdout
